@@ -34,7 +34,8 @@ CLAIMED["C14"] = (
     "Static and path-complete for the structural content of the property: every function with an in-place flag writes to and "
     "returns its operand only under that flag; every other value-returning function has an empty write set on its parameters; "
     "copies get new block/sign tables and assign every slot on every path; index tables shared between copies have no writer; "
-    "no in-place array write targets a shared block; no dict is resized while iterated. Quantifies over all call sites, i.e. "
+    "no in-place array write - augmented assignment, slice store, in-place operator function (operator.iadd ...), out= argument - targets a "
+    "shared block; no dict is resized while iterated. Quantifies over all call sites, i.e. "
     "all programs of public operations, which no finite test sample reaches.",
     "Assumes backend (numpy/torch/autoray) functions are pure and may return views; trusts the engine's over-approximate call "
     "resolution and the exemption tables printed in the evidence (constructors, commands, modify, __i*__, lazy slot init, memo "
@@ -72,7 +73,8 @@ CLAIMED["C20"] = (
     "ar.do path, dtype=<block>.dtype, or a **kwargs dict whose dtype entry is traced to a block through parameters over all "
     "call sites); cast-like constructs occur only at confirmed sites; dtype/backend witnesses are read off a stored block. "
     "This is where an element type can be lost by construction (zero blocks joining data, slice assignment into a default-dtype "
-    "buffer).",
+    "buffer). R20.4: no block-wise value operation is gated on the array-level dtype witness (which is read off ONE block; the blocks of "
+    "an array can differ in element type after mixed arithmetic).",
     "Does not decide type promotion inside backend arithmetic, nor the dtype of python-scalar results of empty contractions. "
     "Assumes autoray's like= injection on the ar.do path.",
     "DESIGN.md section 2, C20",
@@ -81,14 +83,19 @@ CLAIMED["C20"] = (
 PARTIAL_NOTE = (" PARTIAL CLAIM: decides the named structural clauses (necessary conditions of the property) for all paths / call "
                 "sites; the behavioural property itself quantifies over runtime values and is not decided by this technique.")
 CLAIMED["C16"] = (
-    "class-scope name resolution of parameter defaults, dead-parameter (def-use order) analysis, sibling and table agreement; abstract evaluation of the index constructors",
-    "Static checks of the constructor plumbing: no parameter default captures a class-scope descriptor, no parameter is "
-    "overwritten before it is read, the four classmethod constructors agree on resolver call / charge default / forwarded "
-    "keywords, the fixed-symmetry classes, utils.from_dense's table and the get_rand / rand_index chains agree with the "
-    "registry, index constructors sort charge tables and densification iterates sorted charges. Found and fixed two documented "
-    "call forms that failed on every input." + PARTIAL_NOTE,
-    "Does not decide that the arrays built are equal element by element, nor the dense<->block projection content.",
-    "DESIGN.md section 2, C16",
+    "abstract interpretation of the constructors and of to_dense / from_dense over shaped tokens (index-list selection as canonical gather "
+    "terms); class-scope name resolution of parameter defaults, dead-parameter analysis, sibling and table agreement",
+    "Bounded (R16.6, R16.7; ~210 arrays, ~330 labelings): from_blocks through the generic class with a symmetry object or name, through the "
+    "fixed-symmetry class, and with the charge omitted when it is the identity builds exactly what the direct constructor builds; "
+    "from_fill_fn and random fill exactly the charge-conserving sectors with the table shapes; to_dense followed by from_dense with the "
+    "matching labels returns x's blocks, indices and charge; from_dense of an opaque dense token with unsorted, interleaved labels (lists "
+    "and dicts in any insertion order) cuts out the rows / columns of each charge-conserving sector, and to_dense of that is the "
+    "projection reordered by charge. All paths (R16.1-R16.5): no parameter default captures a class-scope descriptor, no parameter is "
+    "overwritten before it is read, the classmethod constructors agree on resolver call / charge default / forwarded keywords, the "
+    "fixed-symmetry classes and utils tables agree with the registry. Found and fixed three defects (two failing call forms; the "
+    "constructor's charge inference ignoring index directions). " + BOUNDED,
+    "utils.get_rand / rand_index chains are compared as tables only; numerical equality of contents is reduced to token identity.",
+    "DESIGN.md sections 2 and 17, C16",
 )
 CLAIMED["C08"] = (
     "abstract interpretation of every interface function invoked three ways (function, method, autoray dispatch) over shaped tokens; "
@@ -119,13 +126,19 @@ CLAIMED["C10"] = (
     "DESIGN.md sections 2 and 16, C10",
 )
 CLAIMED["C13"] = (
-    "dominating-guard analysis (normalised conditions) for negated-count subscripts; abstract interpretation of svd_truncated over shaped tokens for the truncation bookkeeping",
-    "Static: every seq[-n] with a runtime count is dominated by a positivity test (seq[-0] wraps to the first element); the "
-    "absorb switch is exhaustive and scales each factor along its own bond axis; per-sector counts are produced and consumed in "
-    "one insertion order; U, s, VH are truncated with the same count, removed together, and share one new bond table. Found and "
-    "fixed the wrap-around that kept everything for cutoffs above the total weight." + PARTIAL_NOTE,
-    "Which singular values are kept, the error identity and monotonicity in numbers are not decided.",
-    "DESIGN.md section 2, C13",
+    "dominating-guard analysis (normalised conditions, early-return guards) for negated-count subscripts; abstract interpretation of "
+    "svd_truncated over shaped tokens (bookkeeping) and over exact rational spectra (cutoff arithmetic)",
+    "All paths (R13.1): every seq[-n] with a runtime count is dominated by a positivity test (seq[-0] wraps to the first element). Bounded "
+    "(R13.2-R13.4): with the block SVD replaced by shaped tokens, for every bond limit and absorb option the kept count per charge is the "
+    "same on U's columns, s, VH's rows and both bond tables, removed charges vanish everywhere, counts add up to the limit whatever the "
+    "order the sectors were produced in, absorb scales the right factor along the right axis. Bounded (R13.5): on exact rational spectra "
+    "over several charges, for all six cutoff modes, cutoffs from tiny to beyond the total weight and bond limits from 1 to beyond the "
+    "rank (864 evaluations), the number of values kept per charge is exactly what the cutoff rule intersected with the bond limit "
+    "prescribes, the kept values are the largest of their charge, and a larger cutoff never keeps more. Found and fixed the wrap-around "
+    "that kept everything for cutoffs above the total weight. " + BOUNDED,
+    "The error identity (discarded weight = squared reconstruction error) and equality of the absorb variants as numbers are not decided; "
+    "spectra with ties across charges are not enumerated.",
+    "DESIGN.md sections 11 and 17, C13",
 )
 
 CLAIMED["C05"] = (
@@ -159,13 +172,18 @@ CLAIMED["C06"] = (
 )
 
 CLAIMED["C19"] = (
-    "symbolic interpretation of the literal term lists (coefficient normal form per operator site); abstract interpretation of the from_edges builders on small graphs",
-    "Static: in every local builder an on-site term of site k carries +-X_k / coordinations[k] and two-site terms are not divided; "
-    "every from_edges builder counts both ends of every edge once before use and passes coordinations and per-site values in edge "
-    "order; the edge factory looks up (a,b) then (b,a); the site description orients sorted edges, shares one index name per bond "
-    "with directions 0/1 and takes the coordination before the physical index is appended." + PARTIAL_NOTE,
-    "The operator matrices themselves and the numerical sum over edges are not decided.",
-    "DESIGN.md section 2, C19",
+    "abstract interpretation of the local-operator builders with symbolic monomial coefficients (recorded term lists); abstract "
+    "interpretation of the from_edges builders on small graphs",
+    "Each local builder is evaluated with symbolic parameters (per-site pairs, and scalars, which it must broadcast) and symbolic "
+    "coordinations; in the recorded list of (coefficient, operators) an operator belongs to the site in whose basis it occurs; an "
+    "on-site term of site k carries exactly +-X_k / z_k with X_k a parameter of that site, a two-site term is not divided. Every "
+    "from_edges builder, evaluated on six small graphs with scalar / dict / reversed-dict / callable parameters and the local builder "
+    "replaced by a recorder, hands each edge (degree of a, degree of b) and the per-site values in the edge's own order; dict parameters "
+    "are looked up by (a,b) then (b,a); the site description gives each bond one index name with directions 0 / 1 and a coordination "
+    "that excludes the physical index. " + BOUNDED + PARTIAL_NOTE,
+    "The operator matrices themselves (C18) and the numerical sum over edges are not decided; the quimb-based dense builders (TFIM, "
+    "Heisenberg) are checked textually only.",
+    "DESIGN.md sections 2 and 18, C19",
 )
 CLAIMED["C04"] = (
     "exhaustive abstract evaluation of the label comparison over order types; path rule (exchange => sign) on the phased sort; "
@@ -184,13 +202,17 @@ CLAIMED["C04"] = (
     "DESIGN.md sections 2 and 16, C04",
 )
 CLAIMED["C18"] = (
-    "path rule (exchange => sign) on the operator sort; exhaustive abstract evaluation of short operator strings against the canonical anticommutation relations; table checks of bases and charge maps",
-    "Static: in the phased bubble sort an adjacent exchange costs exactly one sign and the entry accumulates phase * coeff under the "
-    "vacuum-pattern test; bra bases are the per-site dagger of the same bases in the same site order; the array is assembled with "
-    "duals ket-then-bra, doubled index maps, fermionic=True; the literal charge maps agree with the literal bases (parity / "
-    "number / (up,down) occupation of each basis state)." + PARTIAL_NOTE,
-    "Values and signs of the elements, hermiticity, spectra and operator composition are not decided.",
-    "DESIGN.md section 2, C18",
+    "exhaustive abstract evaluation of short operator strings against the canonical anticommutation relations; path rule (exchange => "
+    "sign) on the operator sort; abstract interpretation of the assembly and of every model builder for every supported symmetry",
+    "R18.4 (exhaustive over its domain): for every operator string of length <= 3 (4 thorough) over two set-ups the computed elements "
+    "equal the vacuum expectation values <0| bra-basis† term ket-basis |0> given by the CAR, are linear in the coefficients and drop "
+    "zero coefficients. R18.1 (all paths): an adjacent exchange in the phased sort costs exactly one sign. R18.3 (evaluation): the "
+    "assembly hands from_dense ket legs then bra legs, the index maps doubled, fermionic=True; the dense operator has one axis per "
+    "basis twice; each of the five model builders, for each symmetry it supports, passes one index map per basis, and every basis state "
+    "is mapped to its parity (Z2), particle number (U1) or (up, down) occupation (Z2Z2 / U1U1); unknown symmetries are refused. " + PARTIAL_NOTE,
+    "Hermiticity, spectra and operator composition are not decided; R18.2 (textual form of the bra-basis construction) degrades to a note "
+    "when the form changes, its behaviour being decided by R18.4.",
+    "DESIGN.md sections 2 and 18, C18",
 )
 CLAIMED["C03"] = (
     "abstract interpretation of the sign-inserting operations with the abelian core stubbed (recorded sign primitives vs the single pair-sign convention); exhaustive evaluation of the Koszul sign function",
